@@ -265,6 +265,26 @@ Definition handle_proposal_gen (fx : fixes) (ctx : octx) (sender : amap) (p : pr
   end.
 Definition handle_proposal : octx -> amap -> proposal -> outcome := handle_proposal_gen repaired.
 
+(* handleChannelProposal in time.  ctx0 is the receiver's situation when the message arrives:
+   proposalParent (inside prepareChannelOpening) looks the parent up, then the goroutine waits for the
+   parent's machine mutex (an update in flight holds it).  ctx1 is the situation when the mutex has
+   been obtained: validTwoPartyProposal reads the parent's state under the lock, and the handler
+   runs before the lock is released.  `handle_proposal ctx` is the case ctx0 = ctx1 = ctx. *)
+Definition handle_proposal_locked (fx : fixes) (ctx0 ctx1 : octx) (sender : amap) (p : proposal) : outcome :=
+  match proposal_parent fx ctx0 p 1 with
+  | PPanic => Panic
+  | PErr => Dropped
+  | _ =>
+      match valid_two_party fx ctx1 p 1 sender with
+      | VOk => HandlerCalled
+      | VErr => Dropped
+      | VPanic => Panic
+      end
+  end.
+(* a variant that validates on arrival, before the lock is obtained (not what the code does) *)
+Definition handle_proposal_early (fx : fixes) (ctx0 ctx1 : octx) (sender : amap) (p : proposal) : outcome :=
+  handle_proposal_gen fx ctx0 sender p.
+
 (* ---------- validChannelProposalAcc ---------- *)
 Definition matches (p : proposal) (a : accept) : bool :=
   match p, a with
